@@ -470,7 +470,7 @@ pub fn run(args: &Args) -> i32 {
         lay.cuts = vec![vec![(idx / 2) as usize]];
         lay.banks_per_event = 1 + (idx % 2) as usize;
         lay.fmt = fmts[(idx % 3) as usize];
-        lay.files = 1 + (idx % 2) as usize;
+        lay.files = 1 + (idx % 3) as usize;
         conform(&[base.clone()], &lay, json!({"cut_at": idx / 2, "banks_per_event": lay.banks_per_event}), &format!("c{idx}"), loc);
     });
     let pair_step = if thorough { 1 } else { 3 };
@@ -481,7 +481,7 @@ pub fn run(args: &Args) -> i32 {
         if a > b {
             return;
         }
-        let lay = Layout { cuts: vec![vec![a, b]], banks_per_event: 1 + d[2] as usize, files: 1 + (idx % 2) as usize, fmt: fmts[(idx % 3) as usize], lz4: idx % 5 == 0, decoys: idx % 2 == 1 };
+        let lay = Layout { cuts: vec![vec![a, b]], banks_per_event: 1 + d[2] as usize, files: 1 + (idx % 3) as usize, fmt: fmts[(idx % 3) as usize], lz4: idx % 5 == 0, decoys: idx % 2 == 1 };
         conform(&[short.clone()], &lay, json!({"cuts": [a, b]}), &format!("d{idx}"), loc);
     });
 
